@@ -703,7 +703,10 @@ def cut_includes(rng, text, main_url, ncuts=None, places=("", "sub/", "../")):
         ranges = balanced_ranges(lines)
         if not ranges:
             continue
-        i, j = rng.choice(ranges)
+        # a line that would be read differently at the very start of a resource (U+FEFF is a
+        # byte-order mark there and an ordinary character elsewhere) is a preferred cut point
+        marked = [r for r in ranges if lines[r[0]].startswith("\ufeff")]
+        i, j = rng.choice(marked) if marked and rng.random() < 0.6 else rng.choice(ranges)
         place = rng.choice(places)
         name = "%sinc%d.conf" % (place, len(resources))
         target = model.url_join(url, name)
